@@ -35,10 +35,10 @@ RULE = (
     "with /Encoding absent), every reference list name / every no-mapping name / boundary uniXXXX,uXXXX..uXXXXXX names "
     "placed in a Differences array and in a Type 1 header, and the same names driven through name2unicode / "
     "get_encoding directly; random part: font dictionaries drawn per sub-family (base, diff, overlap, tounicode, "
-    "widths, fontfile, ff_enc, std14, t3, traps, ff_traps, ff_std, std14_tu, t3_shear) with random Differences runs "
+    "widths, fontfile, ff_enc, std14, t3, traps, ff_traps, ff_std, std14_tu, t3_shear, t3_missing) with random Differences runs "
     "(direct or indirect array, empty), ToUnicode subsets (bfchar, bfrange increment/array, 1-3 character targets, "
-    "flate or not, with/without begincmap), Widths/FirstChar/MissingWidth tables (ints, reals, indirect array or "
-    "items), FontMatrix, Type 1 header layout (EOL style, comments and strings that look like entries, several "
+    "flate or not, with/without begincmap), Widths/FirstChar/MissingWidth tables (ints, reals, indirect array, indirect "
+    "items, or one indirect object referenced from every position that holds the same value), FontMatrix, Type 1 header layout (EOL style, comments and strings that look like entries, several "
     "entries per line, flate), font as direct or indirect object, table or stream xref (fonts in object streams), "
     "font shown again on a later page (font cache), pages whose /Font dictionary holds 2-3 fonts mixing indirect "
     "references and inline dictionaries in every order (ID DI DD I= IDI DID II ID= I=D DDI IDD; '=' the same object "
@@ -50,7 +50,9 @@ RULE = (
     "Reference lists for them (Arial, TimesNewRoman, CourierNew...), together with /Widths or an embedded program; "
     "composite names with unknown components; lower-case uni/u hex digits; symbolic fonts; MacExpertEncoding; "
     "Type1/TrueType without /Encoding unless standard-14 or embedded Type 1; Type3 /Encoding without /BaseEncoding; "
-    "/Encoding dictionary without /BaseEncoding on an embedded font; Type3 MissingWidth with a short Widths table. "
+    "/Encoding dictionary without /BaseEncoding on an embedded font; FontMatrix / FontBBox with indirect items. Type3 with a non-zero MissingWidth and codes outside "
+    "FirstChar..LastChar (t3_missing): Table 112 says advance 0, Table 122 says MissingWidth (glyph space, through "
+    "FontMatrix); both readings are accepted, any other value is a violation. "
     "Left out of the oracle: WinAnsi 0x7F,0x81,0x8D,0x8F,0x90,0x9D (undefined or bullet); WinAnsi 0xA0 / MacRoman "
     "0xCA accept space or nbsp, WinAnsi 0xAD accepts hyphen or soft hyphen; standard-14 advances only for codes whose "
     "glyph is a standard Latin glyph of the face with a width in the reference excerpt (Courier*, Helvetica, "
@@ -68,7 +70,7 @@ SHARD_TIMEOUT = {"quick": 600, "thorough": 3600}
 # fonts of one page's /Font dictionary: I = indirect reference, D = inline dictionary, '=' = the previous font again
 MIXED_PATTERNS = ["ID", "DI", "DD", "I=", "IDI", "DID", "II", "ID=", "I=D", "DDI", "IDD"]
 
-FAMILIES = ["base", "diff", "overlap", "tounicode", "widths", "fontfile", "ff_enc", "std14", "t3", "traps", "ff_traps", "ff_std", "std14_tu", "t3_shear"]
+FAMILIES = ["base", "diff", "overlap", "tounicode", "widths", "fontfile", "ff_enc", "std14", "t3", "traps", "ff_traps", "ff_std", "std14_tu", "t3_shear", "t3_missing"]
 # Features on which a defect was found (and repaired) are generated as their own sub-families, never inside the
 # others: traps / ff_traps (uni/u names of misleading shape), ff_std (/Encoding StandardEncoding def in the Type 1
 # header), std14_tu (standard-14 font + ToUnicode), t3_shear (oblique FontMatrix).  Their failure keys are specific
@@ -92,6 +94,9 @@ def minimums(tier: str) -> Dict[str, int]:
         "direct_name2unicode": 2500 if q else 40000,
         "direct_get_encoding": 100 if q else 3000,
         "pages_with_reused_font": 60 if q else 3000,
+        "adv_src_type3_missing_either": 8000 if q else 300000,
+        "type3_fonts_widths_one_object_referenced_twice": 25 if q else 1000,
+        "fonts_widths_one_object_referenced_twice": 120 if q else 5000,
         "pages_with_several_fonts": 150 if q else 6000,
         "font_dict_inline_after_indirect": 50 if q else 2000,
         "font_dict_indirect_after_inline": 30 if q else 1200,
@@ -100,7 +105,7 @@ def minimums(tier: str) -> Dict[str, int]:
         "font_dict_indirect_after_same_indirect": 25 if q else 1000,
         "seen:subtype": 4,
         "seen:tsrc": 30,
-        "seen:wsrc": 11,
+        "seen:wsrc": 12,
         "seen:family": len(FAMILIES),
     }
 
@@ -217,7 +222,8 @@ def judge(case: Dict[str, Any], observed: Any, stats: Optional[Dict[str, Any]] =
             if stats is not None:
                 stats["adv"] += 1
                 stats["wsrc"][e["wsrc"]] = stats["wsrc"].get(e["wsrc"], 0) + 1
-            if not _close(adv, e["adv"]):
+            ea = e["adv"]
+            if not (any(_close(adv, v) for v in ea) if isinstance(ea, tuple) else _close(adv, ea)):
                 key = "adv:" + e["wsrc"] + sfx
                 if key not in seen_keys:
                     seen_keys.add(key)
@@ -314,6 +320,10 @@ def run_doc(cases: List[Dict[str, Any]], xref: str, pack: bool, rec=None,
                 rec.count("fonts_with_fontfile")
             if case["direct"]:
                 rec.count("fonts_direct_dict")
+            if case["widths"] and case["widths"]["indirect"] == "shared" and len(case["widths"]["list"]) >= 2:
+                rec.count("fonts_widths_one_object_referenced_twice")
+                if case["subtype"] == "Type3":
+                    rec.count("type3_fonts_widths_one_object_referenced_twice")
             rec.count("codes_text_judged", stats["text"])
             rec.count("codes_text_left_out", stats["text_skipped"])
             rec.count("codes_adv_judged", stats["adv"])
